@@ -659,7 +659,7 @@ pub mod binary_connection {
                 lemma_rf_needmore(p0, limit, self.codec, self.buffer@);
                 assert forall|x: Seq<u8>| #[trigger] canon_p(c1x, b1x + x) =~= canon_p(c1x, b1x) + x by { lemma_canon_append(c1x, b1x, x); }
             }
-//@proof 0 | if self.buffer.is_empty() {
+//@proofafter 0 | if 0 == self.stream.read_buf(&mut self.buffer)? {
                 proof { lemma_rf_exit_eof(p0, w0, limit); }
 //@endfn
 
@@ -704,6 +704,108 @@ pub mod binary_connection {
 //@endfn
     }
 //@closed protocol/binary_connection.rs | impl MemcacheBinaryConnection
+}
+
+// ---- memcache_server/client_handler.rs (R3) -------------------------------------------------------------
+pub mod client_handler {
+    use vstd::prelude::*;
+    use super::*;
+    use super::binary_connection::*;
+    use super::handler;
+    use super::store as storage;
+    use core::result::Result;
+//@items memcache_server/client_handler.rs | struct ClientConfig
+
+//@fields memcache_server/client_handler.rs | struct Client | stream,addr,config,handler,limit_connections
+    pub struct Client {
+        pub stream: MemcacheBinaryConnection,
+        pub addr: SocketAddr,
+        pub config: ClientConfig,
+        pub handler: handler::BinaryHandler,
+        pub limit_connections: Semaphore,        // R4: Arc<Semaphore>; slot accounting (Drop) is outside reach - C17
+    }
+
+    // ASSUMED about the environment, at the start of every request (neither is established by a contract):
+    // the CAS counter has not reached 2^64-1, and no stored value has reached 4 GiB - 512 bytes.
+    #[verifier::external_body]
+    pub proof fn axiom_environment(s: storage::MemcStore)
+        ensures storage::mc_room(s), vals_small(s.store.memory@),
+    { }
+
+    pub open spec fn cl_inv(c: Client) -> bool { conn_inv(c.stream) && storage::mc_inv(c.handler.storage) }
+    pub open spec fn cl_sent(c: Client) -> Seq<u8> { c.stream.stream.sent() }
+
+    // C12: what handling one decoded request does to the connection and the store
+    pub open spec fn request_post(q: ReqView, c0: Client, c1: Client, close: bool) -> bool {
+        if q.kind is QuitQuietly {
+            // quitq: no answer, nothing executed, connection closed
+            &&& close && cl_sent(c1) == cl_sent(c0) && c1.handler.storage == c0.handler.storage && c1.stream.stream.shut()
+        } else {
+            exists|resp: Option<BinaryResponse>| #[trigger] is_opt_resp(resp) && handle_post(q, c0.handler.storage, c1.handler.storage, resp) && match resp {
+                // exactly one response, written whole; quit is answered and then the connection is closed
+                Some(x) => {
+                    ||| (cl_sent(c1) =~= cl_sent(c0) + wire_bytes(x) && close == (x is Quit) && (close ==> c1.stream.stream.shut()) && (!close ==> c1.stream.stream.shut() == c0.stream.stream.shut()))
+                    ||| (close && partial_write(cl_sent(c0), cl_sent(c1), wire_bytes(x)))      // the write failed: close
+                },
+                // quiet command that stays silent: nothing written, connection stays open
+                None => cl_sent(c1) == cl_sent(c0) && !close && c1.stream.stream.shut() == c0.stream.stream.shut(),
+            }
+        }
+    }
+
+    impl Client {
+//@fn memcache_server/client_handler.rs | impl Client | new | ret=r | safety=C10 | sigsub=Arc<storage::MemcStore>=>storage::MemcStore | sigsub=Arc<Semaphore>=>Semaphore
+        ensures
+            conn_limit(r.stream) == config.item_memory_limit, // @ob C13 client.new.limit_plumbed
+            conn_inv(r.stream) && r.stream.stream == socket && r.handler.storage == store, // @ob C12 client.new.wiring
+//@endfn
+
+//@fn memcache_server/client_handler.rs | impl Client | handle | async | safety=C10,C12 | attr=#[verifier::exec_allows_no_decreases_clause]
+        requires
+            cl_inv(*old(self)), !old(self).stream.stream.shut(),
+        ensures
+            storage::mc_inv(final(self).handler.storage), // @ob C18 client.handle.store_consistent_at_exit
+//@loop 0
+            invariant
+                cl_inv(*self), !self.stream.stream.shut(),     // C12: the loop only continues on a connection that has not been closed
+                conn_limit(self.stream) == conn_limit(old(self).stream),
+//@proof 0 | loop {
+        hide(rf_post); hide(request_post); hide(first_frame); hide(handle_post); hide(loud_post); hide(canon_p); hide(hdr_enc); hide(stream_of); hide(req_wf);
+//@proof 0 | match timeout(
+            let ghost s_before = stream_of(self.stream); let ghost lim = conn_limit(self.stream);
+//@proof 0 | let client_close = self.handle_frame(req_or_none);
+                    proof { if req_or_none is Ok && req_or_none->Ok_0 is Some { lemma_rf_wf(s_before, lim, req_or_none, stream_of(self.stream)); } }
+//@endfn
+
+//@fn memcache_server/client_handler.rs | impl Client | handle_frame | ret=r | async | safety=C10,C12,C18 | sigsub=Result<Option<BinaryRequest>, io::Error>=>core::result::Result<Option<BinaryRequest>, io::Error>
+        requires
+            storage::mc_inv(old(self).handler.storage), req is Ok ==> conn_inv(old(self).stream), !old(self).stream.stream.shut(),
+            req is Ok && req->Ok_0 is Some ==> req_wf(req_view(req->Ok_0->Some_0)),
+        ensures
+            storage::mc_inv(final(self).handler.storage) && (!r ==> cl_inv(*final(self))) && conn_limit(final(self).stream) == conn_limit(old(self).stream), // @ob C12 client.handle_frame.inv
+            stream_of(final(self).stream) == stream_of(old(self).stream), // @ob C09,C12 client.handle_frame.reads_nothing
+            // C18: end of stream, a read error and an invalid frame close the connection without executing anything
+            !(req is Ok && req->Ok_0 is Some) ==> r && final(self).handler.storage == old(self).handler.storage && cl_sent(*final(self)) == cl_sent(*old(self)), // @ob C18,C12 client.handle_frame.fault_closes_without_executing
+            req is Ok && req->Ok_0 is Some ==> request_post(req_view(req->Ok_0->Some_0), *old(self), *final(self), r), // @ob C12,C18,C19 client.handle_frame.request_post
+            !r ==> !final(self).stream.stream.shut(), // @ob C12 client.handle_frame.open_iff_continue
+//@endfn
+
+//@fn memcache_server/client_handler.rs | impl Client | handle_request | ret=r | async | safety=C10,C12
+        requires
+            cl_inv(*old(self)), !old(self).stream.stream.shut(), req_wf(req_view(request)),
+        ensures
+            cl_inv(*final(self)) && conn_limit(final(self).stream) == conn_limit(old(self).stream), // @ob C12 client.handle_request.inv
+            stream_of(final(self).stream) == stream_of(old(self).stream), // @ob C09,C12 client.handle_request.reads_nothing
+            request_post(req_view(request), *old(self), *final(self), r), // @ob C12,C18,C19 client.handle_request.request_post
+            !r ==> !final(self).stream.stream.shut(), // @ob C12 client.handle_request.open_iff_continue
+//@proof 0 | let resp = self.handler.handle_request(request);
+        proof { axiom_environment(self.handler.storage); }
+//@endfn
+    }
+//@closed memcache_server/client_handler.rs | impl Client
+
+//@fn memcache_server/client_handler.rs | - | log_error | safety=C10
+//@endfn
 }
 
 } // verus!
